@@ -16,11 +16,14 @@ pub struct Bat<'c> {
     pub debug: bool,
     /// call accessors doing arithmetic on two decoded values (DESIGN 6)
     pub derived: bool,
+    /// go on polling an iterator after one of its calls panicked (the safety checks: a caught panic must not leave
+    /// an object behind that hands out bytes outside the tag)
+    pub resume: bool,
 }
 
 impl<'c> Bat<'c> {
     pub fn new(ctx: &'c mut Ctx, base: *const u8) -> Self {
-        Bat { ctx, recs: Vec::new(), base, debug: true, derived: true }
+        Bat { ctx, recs: Vec::new(), base, debug: true, derived: true, resume: false }
     }
     pub fn u(&mut self, name: &'static str, f: impl FnOnce() -> u64) {
         let v = match self.ctx.call(name, f) {
@@ -265,6 +268,28 @@ pub fn elf(b: &mut Bat, t: &ElfSectionsTag, names: bool) {
             match b.ctx.call("sections.next", || it.next()) {
                 Out::Panic => {
                     b.recs.push(Rec { name: "sections.next", val: Val::Panic });
+                    if b.resume {
+                        b.dbg("sections.Debug(resumed)", &it);
+                        let mut cl = it.clone();
+                        for which in 0..2 {
+                            for _ in 0..3 {
+                                let r = b.ctx.call("sections.next(resumed)", || if which == 0 { it.next() } else { cl.next() });
+                                match r {
+                                    Out::Val(Some(s)) => {
+                                        b.recs.push(Rec { name: "sections.resumed", val: Val::U(1) });
+                                        b.u("section.type_raw", || s.section_type_raw() as u64);
+                                        b.u("section.flags", || s.flags().bits());
+                                        b.u("section.addralign", || s.addralign());
+                                    }
+                                    Out::Val(None) => {
+                                        b.recs.push(Rec { name: "sections.resumed", val: Val::E(0) });
+                                        break;
+                                    }
+                                    Out::Panic => b.recs.push(Rec { name: "sections.resumed", val: Val::Panic }),
+                                }
+                            }
+                        }
+                    }
                     break;
                 }
                 Out::Val(None) => {
@@ -364,6 +389,28 @@ pub fn efi_mmap(b: &mut Bat, t: &EFIMemoryMapTag) {
             match b.ctx.call("areas.next", || it.next()) {
                 Out::Panic => {
                     b.recs.push(Rec { name: "areas.next", val: Val::Panic });
+                    if b.resume {
+                        // the same iterator, a clone of it and its Debug output after the caught panic
+                        b.dbg("memory_areas.Debug(resumed)", &it);
+                        let mut cl = it.clone();
+                        for which in 0..2 {
+                            for _ in 0..3 {
+                                let r = b.ctx.call("areas.next(resumed)", || if which == 0 { it.next() } else { cl.next() });
+                                match r {
+                                    Out::Val(Some(d)) => {
+                                        b.recs.push(Rec { name: "areas.resumed", val: Val::S { off: rel(d, base), len: std::mem::size_of_val(d), hash: 0 } });
+                                        b.u("desc.ty", || d.ty.0 as u64);
+                                        b.u("desc.att", || d.att.bits());
+                                    }
+                                    Out::Val(None) => {
+                                        b.recs.push(Rec { name: "areas.resumed", val: Val::E(0) });
+                                        break;
+                                    }
+                                    Out::Panic => b.recs.push(Rec { name: "areas.resumed", val: Val::Panic }),
+                                }
+                            }
+                        }
+                    }
                     break;
                 }
                 Out::Val(None) => {
